@@ -20,6 +20,8 @@ import (
 	"go/parser"
 	"go/printer"
 	"go/token"
+	"os"
+	"path/filepath"
 	"strconv"
 	"strings"
 )
@@ -32,7 +34,7 @@ type flowPath struct {
 type flowEnum struct {
 	fset   *token.FileSet
 	paths  []flowPath
-	stmtEv func(s ast.Stmt) []string          // events of a simple statement
+	stmtEv func(s ast.Stmt) []string           // events of a simple statement
 	condEv func(c ast.Expr, taken bool) string // event of a branch
 	retEv  func(r *ast.ReturnStmt) string      // r == nil: end of body reached
 }
@@ -214,6 +216,35 @@ func leanBool(b bool) string {
 	return "false"
 }
 
+// package-level constants of the package in dir whose value is a string literal (name -> quoted literal)
+func pkgStringConsts(dir string) map[string]string {
+	out := map[string]string{}
+	pkgs, err := parser.ParseDir(token.NewFileSet(), dir, func(fi os.FileInfo) bool { return !strings.HasSuffix(fi.Name(), "_test.go") }, 0)
+	if err != nil {
+		return out
+	}
+	for _, p := range pkgs {
+		for _, f := range p.Files {
+			for _, d := range f.Decls {
+				gd, ok := d.(*ast.GenDecl)
+				if !ok || gd.Tok != token.CONST {
+					continue
+				}
+				for _, sp := range gd.Specs {
+					if vs, ok := sp.(*ast.ValueSpec); ok && len(vs.Names) == len(vs.Values) {
+						for i, n := range vs.Names {
+							if l, ok := vs.Values[i].(*ast.BasicLit); ok && l.Kind == token.STRING {
+								out[n.Name] = l.Value
+							}
+						}
+					}
+				}
+			}
+		}
+	}
+	return out
+}
+
 // ---- the middleware: RouterAuthorizationCheck.Check ----
 
 func checkPathsOf(file string) ([]flowPath, error) {
@@ -226,11 +257,16 @@ func checkPathsOf(file string) ([]flowPath, error) {
 		return nil, fmt.Errorf("Check: unexpected parameter list")
 	}
 	gc, nf, rac := ps[0], ps[1], recvName(fn)
+	strConsts := pkgStringConsts(filepath.Dir(file))
 	tokenVar, errVar := "", ""
 	e := &flowEnum{fset: fset}
 	isHeaderGet := func(c *ast.CallExpr) bool {
 		if selChain(c.Fun) != gc+".Request.Header.Get" || len(c.Args) != 1 {
 			return false
+		}
+		if id, ok := c.Args[0].(*ast.Ident); ok {
+			// a constant of the package that names the header
+			return strConsts[id.Name] == `"Authorization"`
 		}
 		l, ok := c.Args[0].(*ast.BasicLit)
 		return ok && l.Value == `"Authorization"`
